@@ -16,24 +16,30 @@ Inductive col :=
 | C_rn_lock_expiry | C_rn_lock_owner
 | C_t_block | C_t_mined | C_t_expiry | C_t_minobs
 | C_scan_max_priority
-| C_tx_mined | C_tx_expiry | C_tx_minobs.
+| C_tx_mined | C_tx_expiry | C_tx_minobs
+(* transparent received outputs (alias u), their address row and creating transaction (alias t) *)
+| C_u_value | C_u_maxobs | C_addr | C_addr_key_scope | C_addr_imp_pubkey | C_addr_imp_script
+| C_t_txindex
+| C_u_no_wallet_inputs.   (* 1 iff t.id_tx NOT IN (SELECT transaction_id FROM v_received_output_spends WHERE account_id = accounts.id) *)
 
 Inductive param :=
 | P_account_uuid | P_min_value | P_anchor_height | P_tip_unscanned | P_scanned_priority
-| P_target_height | P_target_value | P_chain_tip | P_owner.
+| P_target_height | P_target_value | P_chain_tip | P_owner
+| P_min_confirmations | P_coinbase_filter.
 
 (** rarray parameters *)
-Inductive lparam := L_exclude | L_overridable_owners.
+Inductive lparam := L_exclude | L_overridable_owners | L_addresses.
 
 Inductive sval := VNull | VInt (z : Z).
 
-Inductive cmp := CEq | CLt | CLe | CGt | CGe.
+Inductive cmp := CEq | CNe | CLt | CLe | CGt | CGe.
 
 Inductive expr :=
 | ECol (c : col)
 | EPar (p : param)
 | ELit (z : Z)
 | EAdd (a b : expr)
+| ESub (a b : expr)
 | ECmp (op : cmp) (a b : expr)
 | EIsNull (a : expr)
 | EIsNotNull (a : expr)
@@ -46,7 +52,7 @@ Inductive expr :=
 
 Definition cmp_z (op : cmp) (a b : Z) : bool :=
   match op with
-  | CEq => a =? b | CLt => a <? b | CLe => a <=? b | CGt => b <? a | CGe => b <=? a
+  | CEq => a =? b | CNe => negb (a =? b) | CLt => a <? b | CLe => a <=? b | CGt => b <? a | CGe => b <=? a
   end.
 
 Definition b2v (b : bool) : sval := VInt (if b then 1 else 0).
@@ -87,6 +93,11 @@ Section Eval.
     | EAdd a b =>
         match eval a, eval b with
         | VInt x, VInt y => VInt (x + y)
+        | _, _ => VNull
+        end
+    | ESub a b =>
+        match eval a, eval b with
+        | VInt x, VInt y => VInt (x - y)
         | _, _ => VNull
         end
     | ECmp op a b =>
